@@ -228,6 +228,41 @@ def escapes_execute(case, stats):
     stats.note(case, any(p[0].startswith("\\") for p in case["parts"]), classes=["parts%d" % len(case["parts"])])
 
 
+_HEXCH = "0123456789abcdefABCDEF"
+
+
+def hexsp_enumerate(tier, shard, nshards):
+    return shard_iter(({"form": f, "hi": h} for f in ("x", "u") for h in _HEXCH), shard, nshards)
+
+
+def hexsp_execute(case, stats):
+    """Every spelling of the two significant hex digits (22 x 22, either letter case, mixed) of \\xHH and \\u00HH,
+    alone and between other characters: direct decoding and through the parser."""
+    from lark import Token
+
+    from dissect.cobaltstrike import c2profile
+
+    items = []
+    for lo in _HEXCH:
+        hh = case["hi"] + lo
+        esc = ("\\x" if case["form"] == "x" else "\\u00") + hh
+        val = bytes([int(hh, 16)])
+        for pre, post, bpre, bpost in (("", "", b"", b""), ("<", ">", b"<", b">"), ("\\\\", "0", b"\\", b"0")):
+            inner = pre + esc + post
+            want = bpre + val + bpost
+            eq(L.decode(inner), want, "harness:reference_decoder", f"reference decoder on {inner!r}")
+            got = lib(c2profile.string_token_to_bytes, Token("STRING", '"' + inner + '"'), what="string_token_to_bytes")
+            if got != want:
+                raise Violation("escape:decode", f"literal {inner!r} decoded to {got!r}, documented value {want!r}")
+            items.append((want, '"' + inner + '"'))
+    text = "http-post { client { output { " + " ".join(f"prepend {lit};" for _, lit in items) + " print; } } }"
+    prof = lib(c2profile.C2Profile.from_text, text, what="from_text")
+    d = lib(prof.as_dict, what="as_dict")
+    eq(d.get("http-post.client.output"), [("prepend", b) for b, _ in items] + ["print"], "escape:through_parser", f"all spellings \\{case['form']}..{case['hi']}? as transform arguments")
+    stats.count("spellings", len(items))
+    stats.note(case, True, classes=["hex_spelling_" + case["form"]])
+
+
 def long_enumerate(tier, shard, nshards):
     return shard_iter(({"size": n, "kind": k} for n in (4096, 65535, 65536, 70001) for k in ("random", "syntax")), shard, nshards)
 
@@ -246,6 +281,7 @@ def long_execute(case, stats):
 
 
 SUBS = [
+    Sub("hex_spellings", hexsp_execute, enumerate=hexsp_enumerate, exhaustive=True),
     Sub("long_literals", long_execute, enumerate=long_enumerate, exhaustive=True),
     Sub("exhaustive", enum_execute, enumerate=enum_cases, exhaustive=True),
     Sub("random", random_execute, strategy=random_strategy, examples={"quick": 320, "thorough": 8000}),
